@@ -48,14 +48,26 @@ SlotErrors(r) ==
 ExpComparable(x, cls) == {e \in ToSet(x) : e[2] \notin ExportIdKeys(cls)}
                          \cup {<<e[1], e[2], "id">> : e \in {d \in ToSet(x) : d[2] \in ExportIdKeys(cls)}}
 
+\* where a difference is: the last field name of a walk path; the first key of an export path that
+\* is not one of the enclosing blocks
+RECURSIVE LastName(_)
+LastName(p) == IF Len(p) = 0 THEN "" ELSE IF p[Len(p)] \in Idx THEN LastName(SubSeq(p, 1, Len(p) - 1)) ELSE p[Len(p)]
+StructKeys == {"entity", "hidden", "solid", "side", "dispinfo", "connections", "editor", "visgroup"} \cup Idx
+RECURSIVE FirstKey(_)
+FirstKey(p) == IF Len(p) = 0 THEN "" ELSE IF p[1] \in StructKeys THEN FirstKey(Tail(p)) ELSE p[1]
+\* one verdict per place (not per element)
+PerPlace(clause, es, where(_)) ==
+    {Bad(clause, w, CHOOSE e \in es : where(e) = w) : w \in {where(e) : e \in es}}
+
 CopyVerdicts(r) ==
     LET oc == Comparable(r.owalk) cc == Comparable(r.cwalk)
         oe == ExpComparable(r.oexp, r.cls) ce == ExpComparable(r.cexp, r.cls)
         compare == r.how # "collapse"
-    IN  {Bad("alias.shared", Norm(s[1]), s) : s \in ToSet(r.shared)}
-        \cup (IF compare THEN {Bad("copy.fields", Norm(e[1]), e) : e \in (oc \ cc)} ELSE {})
-        \cup (IF compare THEN {Bad("copy.extra", Norm(e[1]), e) : e \in {d \in cc \ oc : \A o \in oc : o[1] # d[1]}} ELSE {})
-        \cup (IF compare THEN {Bad("copy.export", Norm(e[1]), e) : e \in (oe \ ce) \cup {d \in ce \ oe : \A o \in oe : o[1] # d[1]}} ELSE {})
+    IN  PerPlace("alias.shared", ToSet(r.shared), LAMBDA e : Norm(e[1]))
+        \cup (IF compare THEN PerPlace("copy.fields", oc \ cc, LAMBDA e : LastName(e[1])) ELSE {})
+        \cup (IF compare THEN PerPlace("copy.extra", {d \in cc \ oc : \A o \in oc : o[1] # d[1]}, LAMBDA e : LastName(e[1])) ELSE {})
+        \cup (IF compare THEN PerPlace("copy.export", (oe \ ce) \cup {d \in ce \ oe : \A o \in oe : o[1] # d[1]},
+                                       LAMBDA e : FirstKey(e[1])) ELSE {})
         \cup ClassFieldErrors(r.owalk) \cup ClassFieldErrors(r.cwalk)
         \cup (IF compare THEN SlotErrors(r) ELSE {})
 
@@ -65,7 +77,8 @@ MutWhat(r) == IF r.mut.op = "cell" THEN Norm(r.mut.path) ELSE r.mut.meth
 MutateVerdicts(r) ==
     LET other == IF r.mut.side = "c" THEN "o" ELSE "c"
         mine == r.mut.side
-    IN  (IF r.exc # "" THEN {Bad("mutate.raised", MutWhat(r), r.exc)} ELSE {})
+    IN  (IF r.exc = "NoSuchCell" THEN {Bad("mutate.nocell", MutWhat(r), r.exc)}       \* the cell is not there on that side
+         ELSE IF r.exc # "" THEN {Bad("mutate.raised", MutWhat(r), r.exc)} ELSE {})
         \cup (IF r.ed[1] # r.ed[2]
               THEN {Bad("frame.export", MutWhat(r), [side |-> other, changed |-> r.edelta])} ELSE {})
         \cup (IF r.wd[other][1] # r.wd[other][2] THEN {Bad("frame.state", MutWhat(r), [side |-> other, changed |-> r.delta])} ELSE {})
